@@ -85,8 +85,15 @@ func base(p string) string {
 	return p[i+1:]
 }
 
+// OnStep, when set, runs at the start of every file-system call: real file I/O is a
+// scheduling point, a harness lets other goroutines run there.
+var OnStep func()
+
 // step: returns (dead, fail)
 func (fs *FS) step(op string, mutating bool) (bool, bool) {
+	if OnStep != nil {
+		OnStep()
+	}
 	if fs.Dead {
 		return true, false
 	}
